@@ -139,7 +139,7 @@ func (w *World) peek(p string) (os.FileInfo, error) {
 }
 
 func genC04(rng *rand.Rand, n int) SrvCase {
-	g := &nsGen{depth: 2, withData: rng.Intn(2) == 0, withSetattr: true, withMnt: true}
+	g := &nsGen{depth: 2, withData: rng.Intn(2) == 0, withSetattr: true, withMnt: true, tight: rng.Intn(3) == 0}
 	c := genNsCase(rng, n, g)
 	c.Cfg.AttrTTL = []time.Duration{time.Nanosecond, 5 * time.Second, 20 * time.Millisecond}[rng.Intn(3)]
 	c.Cfg.DirCache = rng.Intn(2) == 0
@@ -147,6 +147,20 @@ func genC04(rng *rand.Rand, n int) SrvCase {
 	// one history in three: the client keeps the handles it has when the object at their path is replaced (the
 	// server's handles name paths): whatever such a request does, it does to the object now at that path
 	c.Cfg.KeepStale = rng.Intn(3) == 0
+	if c.Cfg.KeepStale && rng.Intn(2) == 0 {
+		// a name changes hands while the client holds its handle: a file is removed and a symbolic link (to another
+		// object) is renamed into its place, then attributes are set through the old handle — they are the link's
+		// business now, never its target's — and everything is looked at again
+		c.Seed = append(c.Seed, "file /zt "+hx([]byte("target")))
+		at := rng.Intn(len(c.Ops) + 1)
+		mode := uint32([]int{0o600, 0o640, 0o755, 0o400}[rng.Intn(4)])
+		pat := []SOp{{Kind: "create", Dir: "/", Name: "zs"}, {Kind: "lookup", Dir: "/", Name: "zs"}, {Kind: "lookup", Dir: "/", Name: "zt"},
+			{Kind: "symlink", Dir: "/", Name: "zl", Target: "zt"}, {Kind: "remove", Dir: "/", Name: "zs"}, {Kind: "rename", Dir: "/", Name: "zl", Dir2: "/", Name2: "zs"},
+			{Kind: "setattr", Dir: "/zs", Sa: Sattr{Mode: &mode}}, {Kind: "getattr", Dir: "/zt"}, {Kind: "lookup", Dir: "/", Name: "zt"}, {Kind: "getattr", Dir: "/zs"}, {Kind: "readdirplus", Dir: "/", Count: 8192}}
+		ops := append([]SOp{}, c.Ops[:at]...)
+		ops = append(ops, pat...)
+		c.Ops = append(ops, c.Ops[at:]...)
+	}
 	return c
 }
 
